@@ -1,7 +1,7 @@
 (* C06 — the documented values of the built-ins of Model/ExprFuncs.v: characteristic theorems. *)
 From Coq Require Import List Arith Lia Bool QArith Qabs Qround SetoidList.
 Import ListNotations.
-From SV Require Import Model.ExprFuncs.
+From SV Require Import Model.ExprFuncs Proofs.ExprPadProofs.
 Local Open Scope nat_scope.
 
 (* ------------------------------------------------------------------ general *)
@@ -1040,4 +1040,169 @@ Proof.
     assert (Hb : fx_body nm_length [YS (VNum (inject_Z z))] =
                  with_str (YS (VNum (inject_Z z))) (fun s => yint (Z.of_nat (length s)))) by reflexivity.
     rewrite Hb. unfold with_str, to_string_x. rewrite (num_to_string_Z z H). reflexivity.
+Qed.
+
+(* ------------------------------------------------------------------ fx_call extends fn_call *)
+Lemma scalars_map_YS : forall vs, scalars (map YS vs) = Some vs.
+Proof. induction vs as [|v vs IH]; simpl; [reflexivity|rewrite IH; reflexivity]. Qed.
+
+(* on scalar arguments the functions of Model/ExprEval.v keep the meaning they have there, so every
+   theorem about fn_call (lpad / rpad, the agreement with the reference semantics) carries over *)
+Theorem fx_call_extends_fn_call : forall n a vs,
+  fx_arity n = Some a -> arity_ok a (length vs) = true ->
+  (forall v, fn_call n vs = FOk v -> fx_call n (map YS vs) = YOk (YS v)) /\
+  (fn_call n vs = FErr -> fx_call n (map YS vs) = YErr).
+Proof.
+  intros n a vs Ha Hk. unfold fx_call. rewrite Ha, map_length, Hk, scalars_map_YS. simpl.
+  split; [intros v H|intros H]; rewrite H; reflexivity.
+Qed.
+
+Theorem fx_pad_call : forall (left : bool) (s : bytes) (n : nat) (pad : bytes),
+  fx_call (if left then nm_lpad else nm_rpad) [YS (VStr s); YS (VNum (inject_Z (Z.of_nat n))); YS (VStr pad)]
+  = ystr (pad_value left s n pad).
+Proof.
+  intros left s n pad.
+  pose proof (fn_call_pad left s n pad) as H.
+  destruct left.
+  - apply (proj1 (fx_call_extends_fn_call nm_lpad (2, Some 3) [VStr s; VNum (inject_Z (Z.of_nat n)); VStr pad] eq_refl eq_refl)). exact H.
+  - apply (proj1 (fx_call_extends_fn_call nm_rpad (2, Some 3) [VStr s; VNum (inject_Z (Z.of_nat n)); VStr pad] eq_refl eq_refl)). exact H.
+Qed.
+
+(* ------------------------------------------------------------------ conversions: hexadecimal *)
+Lemma hex_digit_char : forall d, (d < 16)%N ->
+  hex_digit (digit_char d) = Some (Z.of_N d).
+Proof.
+  intros d H. unfold digit_char, hex_digit. destruct (d <? 10)%N eqn:E.
+  - apply N.ltb_lt in E.
+    assert (E1 : (48 <=? 48 + d)%N && (48 + d <=? 57)%N = true)
+      by (apply andb_true_iff; split; apply N.leb_le; lia).
+    rewrite E1. f_equal. f_equal. lia.
+  - apply N.ltb_ge in E.
+    assert (E1 : (48 <=? 87 + d)%N && (87 + d <=? 57)%N = false)
+      by (apply andb_false_iff; right; apply N.leb_gt; lia).
+    assert (E2 : (97 <=? 87 + d)%N && (87 + d <=? 102)%N = true)
+      by (apply andb_true_iff; split; apply N.leb_le; lia).
+    rewrite E1, E2. f_equal. f_equal. lia.
+Qed.
+
+Lemma hex_digits_step : forall c r acc d, hex_digit c = Some d ->
+  hex_digits (c :: r) acc = hex_digits r (acc * 16 + d)%Z.
+Proof. intros c r acc d H. simpl. rewrite H. reflexivity. Qed.
+
+Lemma hex_digits_rev : forall fuel n acc rest, (n < 16 ^ N.of_nat fuel)%N ->
+  hex_digits (rev (digits_rev 16 fuel n) ++ rest) acc =
+  hex_digits rest (acc * 16 ^ Z.of_nat (length (digits_rev 16 fuel n)) + Z.of_N n)%Z.
+Proof.
+  induction fuel as [|f IH]; intros n acc rest Hn.
+  - simpl in Hn. assert (n = 0%N) by lia. subst n. simpl. rewrite Z.mul_1_r, Z.add_0_r. reflexivity.
+  - simpl digits_rev. destruct (n <? 16)%N eqn:E.
+    + apply N.ltb_lt in E. simpl rev. simpl app. rewrite (hex_digits_step _ _ _ _ (hex_digit_char n E)).
+      simpl length. reflexivity.
+    + apply N.ltb_ge in E.
+      assert (Hm : (n mod 16 < 16)%N) by (apply N.mod_lt; discriminate).
+      assert (Hd : (n / 16 < 16 ^ N.of_nat f)%N).
+      { apply N.div_lt_upper_bound; [discriminate|].
+        replace (N.of_nat (S f)) with (N.succ (N.of_nat f)) in Hn by lia.
+        rewrite N.pow_succ_r' in Hn. exact Hn. }
+      simpl rev. rewrite <- app_assoc. simpl app. rewrite (IH _ _ _ Hd).
+      rewrite (hex_digits_step _ _ _ _ (hex_digit_char _ Hm)). simpl length.
+      set (L := length (digits_rev 16 f (n / 16))).
+      rewrite Nat2Z.inj_succ, Z.pow_succ_r by lia.
+      assert (Hdm : Z.of_N n = (16 * Z.of_N (n / 16) + Z.of_N (n mod 16))%Z).
+      { rewrite (N.div_mod' n 16) at 1. rewrite N2Z.inj_add, N2Z.inj_mul. reflexivity. }
+      rewrite Hdm. f_equal. ring.
+Qed.
+
+Lemma hex_fuel : forall n, (n < 16 ^ N.of_nat (S (N.to_nat (N.log2 n))))%N.
+Proof.
+  intros n. replace (N.of_nat (S (N.to_nat (N.log2 n)))) with (N.succ (N.log2 n)) by lia.
+  destruct n as [|p].
+  - simpl. lia.
+  - assert (H : (N.pos p < 2 ^ N.succ (N.log2 (N.pos p)))%N) by (apply N.log2_spec; lia).
+    eapply N.lt_le_trans; [exact H|]. apply N.pow_le_mono_l. lia.
+Qed.
+
+Lemma digits_rev_length_le : forall base fuel n, length (digits_rev base fuel n) <= fuel.
+Proof. intros base. induction fuel as [|f IH]; intros n; simpl; [lia|]. destruct (n <? base)%N; simpl; [lia|]. specialize (IH (n / base)%N). lia. Qed.
+
+Lemma hex_of_N_roundtrip : forall n,
+  hex_digits (digits_of_N 16 n) 0%Z = Some (Z.of_N n) /\ 0 < length (digits_of_N 16 n) /\
+  (forall c, In c (digits_of_N 16 n) -> c <> 45%N /\ c <> 43%N).
+Proof.
+  intros n. unfold digits_of_N. split; [|split].
+  - pose proof (hex_digits_rev (S (N.to_nat (N.log2 n))) n 0%Z [] (hex_fuel n)) as H.
+    rewrite app_nil_r in H. rewrite H. reflexivity.
+  - rewrite rev_length. simpl. destruct (n <? 16)%N; simpl; lia.
+  - intros c H. apply in_rev in H.
+    assert (G : forall fuel m c, In c (digits_rev 16 fuel m) -> exists d, (d < 16)%N /\ c = digit_char d).
+    { induction fuel as [|f IH]; intros m c0 H0; simpl in H0; [contradiction|].
+      destruct (m <? 16)%N eqn:E.
+      - apply N.ltb_lt in E. destruct H0 as [H0|[]]. exists m. split; [exact E|symmetry; exact H0].
+      - destruct H0 as [H0|H0].
+        + exists (m mod 16)%N. split; [apply N.mod_lt; discriminate|symmetry; exact H0].
+        + apply (IH _ _ H0). }
+    destruct (G _ _ _ H) as [d [Hd Hc]]. subst c. unfold digit_char. destruct (d <? 10)%N; lia.
+Qed.
+
+(* hex2dec(dec2hex(z)) = z *)
+Theorem hex_text_roundtrip : forall z, (Z.abs z < 16 ^ 15)%Z ->
+  parse_hex (hex_of_Z z) = OVal z /\
+  fx_call nm_dec2hex [YS (VNum (inject_Z z))] = ystr (hex_of_Z z) /\
+  fx_call nm_hex2dec [YS (VStr (hex_of_Z z))] = yint z.
+Proof.
+  intros z Hz.
+  assert (L : forall n, (Z.of_N n < 16 ^ 15)%Z -> length (digits_of_N 16 n) <= 15).
+  { intros n Hn. unfold digits_of_N. rewrite rev_length.
+    (* 16^15 = 2^60: log2 n < 60, so the fuel - an upper bound of the length - is at most 60; sharper: *)
+    destruct (N.eq_dec n 0) as [->|Hn0]; [simpl; lia|].
+    assert (Hlog : (N.log2 n < 60)%N).
+    { apply N.log2_lt_pow2; [lia|]. apply N2Z.inj_lt. rewrite N2Z.inj_pow. simpl Z.of_N.
+      change (2 ^ 60)%Z with (16 ^ 15)%Z. exact Hn. }
+    (* each hex digit consumes 4 bits *)
+    assert (G : forall fuel m k, (m < 16 ^ N.of_nat k)%N -> length (digits_rev 16 fuel m) <= Nat.max 1 k).
+    { induction fuel as [|f IH]; intros m k Hm; [simpl length; lia|]. simpl digits_rev.
+      destruct (m <? 16)%N eqn:E; [simpl length; lia|]. simpl length. apply N.ltb_ge in E.
+      destruct k as [|k]; [change (16 ^ N.of_nat 0)%N with 1%N in Hm; lia|].
+      destruct k as [|k]; [change (16 ^ N.of_nat 1)%N with 16%N in Hm; lia|].
+      assert (Hd : (m / 16 < 16 ^ N.of_nat (S k))%N).
+      { apply N.div_lt_upper_bound; [discriminate|].
+        replace (N.of_nat (S (S k))) with (N.succ (N.of_nat (S k))) in Hm by lia.
+        rewrite N.pow_succ_r' in Hm. exact Hm. }
+      specialize (IH (m / 16)%N (S k) Hd). lia. }
+    assert (Hn16 : (n < 16 ^ N.of_nat 15)%N).
+    { apply N2Z.inj_lt. rewrite N2Z.inj_pow. exact Hn. }
+    specialize (G (S (N.to_nat (N.log2 n))) n 15 Hn16). lia. }
+  assert (P : forall n, (Z.of_N n < 16 ^ 15)%Z -> parse_hex (digits_of_N 16 n) = OVal (Z.of_N n)).
+  { intros n Hn. destruct (hex_of_N_roundtrip n) as [H1 [H2 H3]]. specialize (L n Hn).
+    destruct (digits_of_N 16 n) as [|c r] eqn:E; [simpl in H2; lia|].
+    destruct (H3 c (or_introl eq_refl)) as [Hc1 Hc2].
+    unfold parse_hex.
+    assert (E1 : (c =? 45)%N = false) by (apply N.eqb_neq; exact Hc1).
+    assert (E2 : (c =? 43)%N = false) by (apply N.eqb_neq; exact Hc2).
+    rewrite E1, E2, H1.
+    assert (E15 : Nat.leb (length (c :: r)) 15 = true) by (apply Nat.leb_le; exact L). rewrite E15. reflexivity. }
+  assert (Q1 : parse_hex (hex_of_Z z) = OVal z).
+  { destruct z as [|p|p].
+    - apply (P 0%N). reflexivity.
+    - apply (P (N.pos p)). exact Hz.
+    - unfold hex_of_Z. destruct (hex_of_N_roundtrip (N.pos p)) as [H1 [H2 _]].
+      assert (Lp := L (N.pos p) Hz). unfold parse_hex. rewrite N.eqb_refl.
+      destruct (digits_of_N 16 (N.pos p)) as [|c r] eqn:E; [simpl in H2; lia|]. rewrite H1.
+      assert (E15 : Nat.leb (length (c :: r)) 15 = true) by (apply Nat.leb_le; exact Lp). rewrite E15. reflexivity. }
+  split; [exact Q1|].
+  assert (H63 : (Z.abs z < two63)%Z).
+  { eapply Z.lt_trans; [exact Hz|]. unfold two63. reflexivity. }
+  split.
+  - unfold fx_call. assert (Ha : fx_arity nm_dec2hex = Some (1, Some 1)) by reflexivity. rewrite Ha.
+    assert (Hf : fn_call nm_dec2hex [VNum (inject_Z z)] = FUnmodelled) by reflexivity.
+    simpl scalars. cbv beta iota. rewrite Hf. simpl negb. cbv beta iota.
+    assert (Hb : fx_body nm_dec2hex [YS (VNum (inject_Z z))] =
+                 with_int (YS (VNum (inject_Z z))) (fun x => ystr (hex_of_Z x))) by reflexivity.
+    rewrite Hb. unfold with_int. rewrite (to_int64_Z _ H63). reflexivity.
+  - unfold fx_call. assert (Ha : fx_arity nm_hex2dec = Some (1, Some 1)) by reflexivity. rewrite Ha.
+    assert (Hf : fn_call nm_hex2dec [VStr (hex_of_Z z)] = FUnmodelled) by reflexivity.
+    simpl scalars. cbv beta iota. rewrite Hf. simpl negb. cbv beta iota.
+    assert (Hb : fx_body nm_hex2dec [YS (VStr (hex_of_Z z))] =
+                 match parse_hex (hex_of_Z z) with OVal x => yint x | OErr => YErr | OUnm => YUnm end) by reflexivity.
+    rewrite Hb, Q1. reflexivity.
 Qed.
